@@ -48,7 +48,7 @@ Definition os_rel (o : osst) (h : hist) (wk : nat) : bool :=
   | OsSent => negb (h_hdl h) && h_app h && nz wk
   | OsClosed => negb (h_hdl h) && negb (h_app h)
   end.
-Definition tx_used (t : txst) : bool := match t with TUsed => true | _ => false end.
+Definition tx_live (t : txst) : bool := match t with TLive => true | _ => false end.
 Definition buf_rel (cls : resp -> rclass) (c : chan) (pend : bool) (h : hist) (wk : nat) : bool :=
   match c_buf c with
   | Some r => c_rx c && pend && is_ok (cls r) && nz wk
@@ -67,6 +67,10 @@ Definition inv (k : tkind) (id : N) (t : timer) (h : hist) : bool :=
   | PClr rq cl => h_started h && h_clr h && negb (h_out h) && negb (h_done h) && os_closed (t_os t)
             && buf_rel (class_clear id) cl (h_ans h) h (t_wakes t)
   | PFin rq cl => (h_out h || h_done h) && implb (is_some rq) (h_started h) && implb (is_some cl) (h_clr h)
+            && (h_out h || match cl with
+                           | Some c => negb (tx_live (c_tx c))
+                           | None => match rq with Some c => negb (tx_live (c_tx c)) | None => true end
+                           end)
   end.
 
 Lemma run_wk0 : forall k id os ph, run (mkTimer k id os ph 0) = (mkTimer k id os ph 0, [], [], false).
@@ -108,14 +112,14 @@ Proof.
     + cbn in Hinv; bools; discriminate.
     + destruct os; dchan rq; cbn in Hinv; bools; subst; try discriminate; fin.
     + destruct os; dchan cl; cbn in Hinv; bools; subst; try discriminate; fin.
-    + destruct rq, cl; cbn in Hinv; bools; subst; fin.
+    + destruct rq as [[[] ? ? ?]|], cl as [[[] ? ? ?]|]; cbn in Hinv; bools; subst; fin.
   - destruct ph as [|rq|rq cl|rq cl].
     + destruct os; cbn in Hinv; bools; subst; try discriminate; destruct k; fin.
     + destruct os; dchan rq; cbn in Hinv; bools; subst; try discriminate;
         try (destruct (class_start k id r) eqn:Hc; try discriminate); cbn; rewrite ?Hc; fin.
     + destruct os; dchan cl; cbn in Hinv; bools; subst; try discriminate;
         try (destruct (class_clear id r) eqn:Hc; try discriminate); cbn; rewrite ?Hc; fin.
-    + destruct rq, cl; cbn in Hinv; bools; subst; fin.
+    + destruct rq as [[[] ? ? ?]|], cl as [[[] ? ? ?]|]; cbn in Hinv; bools; subst; fin.
 Qed.
 
 (* ------------------------------------------------------------------ *)
@@ -135,38 +139,38 @@ Proof.
     + destruct os; dchan rq; cbn in Hinv; bools; subst; try discriminate;
         destruct (class_start k id r) eqn:Hc; cbn; rewrite ?Hc; destruct wk; fin.
     + destruct os; dchan cl; cbn in Hinv; bools; subst; try discriminate; destruct rq as [tx b rx w]; destruct tx, rx, w; destruct wk; fin.
-    + destruct rq as [rq|]; [dchan rq|]; destruct cl; cbn in Hinv; bools; subst; destruct wk; fin.
+    + destruct rq as [rq|]; [dchan rq|]; destruct cl as [[[] ? ? ?]|]; cbn in Hinv; bools; subst; destruct wk; fin.
   - (* IDropReq *)
     destruct ph as [|rq|rq cl|rq cl].
     + destruct os; cbn in Hinv; bools; subst; try discriminate; destruct wk; fin.
     + destruct os; dchan rq; cbn in Hinv; bools; subst; try discriminate; destruct wk; fin.
     + destruct os; dchan cl; cbn in Hinv; bools; subst; try discriminate; destruct rq as [tx b rx w]; destruct tx, rx, w; destruct wk; fin.
-    + destruct rq as [rq|]; [dchan rq|]; destruct cl; cbn in Hinv; bools; subst; destruct wk; fin.
+    + destruct rq as [rq|]; [dchan rq|]; destruct cl as [[[] ? ? ?]|]; cbn in Hinv; bools; subst; destruct wk; fin.
   - (* IClear *)
     destruct ph as [|rq|rq cl|rq cl].
     + destruct os; cbn in Hinv; bools; subst; try discriminate; destruct wk; fin.
     + destruct os; dchan rq; cbn in Hinv; bools; subst; try discriminate; destruct wk; fin.
     + destruct os; dchan cl; cbn in Hinv; bools; subst; try discriminate; destruct wk; fin.
-    + destruct os, rq, cl; cbn in Hinv; bools; subst; fin.
+    + destruct os, rq as [[[] ? ? ?]|], cl as [[[] ? ? ?]|]; cbn in Hinv; bools; subst; fin.
   - (* IDropHandle *)
     destruct ph as [|rq|rq cl|rq cl].
     + destruct os; cbn in Hinv; bools; subst; try discriminate; destruct wk; fin.
     + destruct os; dchan rq; cbn in Hinv; bools; subst; try discriminate; destruct wk; fin.
     + destruct os; dchan cl; cbn in Hinv; bools; subst; try discriminate; destruct wk; fin.
-    + destruct os, rq, cl; cbn in Hinv; bools; subst; fin.
+    + destruct os, rq as [[[] ? ? ?]|], cl as [[[] ? ? ?]|]; cbn in Hinv; bools; subst; fin.
   - (* IAnsClr *)
     destruct ph as [|rq|rq cl|rq cl].
     + destruct os; cbn in Hinv; bools; subst; try discriminate; destruct wk; fin.
     + destruct os; dchan rq; cbn in Hinv; bools; subst; try discriminate; destruct wk; fin.
     + destruct os; dchan cl; cbn in Hinv; bools; subst; try discriminate;
         destruct (class_clear id r) eqn:Hc; cbn; rewrite ?Hc; destruct wk; fin.
-    + destruct cl as [cl|]; [dchan cl|]; destruct rq; cbn in Hinv; bools; subst; destruct wk; fin.
+    + destruct cl as [cl|]; [dchan cl|]; destruct rq as [[[] ? ? ?]|]; cbn in Hinv; bools; subst; destruct wk; fin.
   - (* IDropClr *)
     destruct ph as [|rq|rq cl|rq cl].
     + destruct os; cbn in Hinv; bools; subst; try discriminate; destruct wk; fin.
     + destruct os; dchan rq; cbn in Hinv; bools; subst; try discriminate; destruct wk; fin.
     + destruct os; dchan cl; cbn in Hinv; bools; subst; try discriminate; destruct wk; fin.
-    + destruct cl as [cl|]; [dchan cl|]; destruct rq; cbn in Hinv; bools; subst; destruct wk; fin.
+    + destruct cl as [cl|]; [dchan cl|]; destruct rq as [[[] ? ? ?]|]; cbn in Hinv; bools; subst; destruct wk; fin.
 Qed.
 
 (* ------------------------------------------------------------------ *)
